@@ -23,6 +23,8 @@ def check_case(case):
         spec = with_phases(spec, PH3 if case.get("ph3") else PH2, {case["who"]: case["pc"]})
         if case.get("pc_first"):
             spec["pc_first"] = True
+        if case.get("nophase"):  # a phase list on a component of a system WITHOUT system phases: the unnamed phase is in nobody's list
+            spec["phases"] = None
     elif fam == "sib":  # dead source next to a live one
         from .c01 import two_source_spec
         spec = two_source_spec(case["f"], case["f2"], case["pal"], 1, 0.37)
@@ -32,7 +34,13 @@ def check_case(case):
     else:  # mux without a live input, next to a live shared source
         spec = mux_spec([tuple(x) for x in case["inputs"]], case["pal"], case["rs_list"], below="deep", mux_pc=case.get("mux_pc"))
     s, obs = phys.solve_and_check(res, spec, WANT)
-    if obs is not None and fam == "phase" and (len(spec["comps"]) <= 3 or case["pc"] == ["zz"] or len(case["f"]) == 1):
+    if obs is not None and fam == "phase" and spec.get("phases") and len(case["f"]) == 1:
+        # a tight iteration budget: either RuntimeError or a table in which the dead rail is still dead (never an unconverged earlier phase)
+        sub = Res()
+        s2, obs2 = phys.solve_and_check(sub, spec, ("C04",), solve_kw=dict(maxiter=3))
+        for sig, det in sub.viol:
+            res.v(("C04.maxiter3",) + sig, det)
+    if obs is not None and fam == "phase" and spec.get("phases") and (len(spec["comps"]) <= 3 or case["pc"] == ["zz"] or len(case["f"]) == 1):
         # the same system with a rail on every non-load component: a dead rail must be reported at 0 V in exactly the phases in which it is dead
         import copy
         from ..sysmodel import LOADS, build, g
@@ -46,7 +54,7 @@ def check_case(case):
             for r in rr.to_dict("records"):
                 ph, own = r.get("Phase", ""), r["Rail"][2:]
                 ev = g(obs[(ph, own)], "Vout (V)")
-                if g(r, "Voltage (V)") != ev:
+                if not (g(r, "Voltage (V)") == ev or (ev != 0 and abs(g(r, "Voltage (V)") - ev) <= 1e-5 * abs(ev))):  # separate solve: exact 0 for a dead rail, solver tolerance for a live one
                     res.v(("C04.rail-voltage", "dead" if ev == 0 else "live"), "phase %r rail of %s reported at %r V, its owner outputs %r V" % (ph, own, g(r, "Voltage (V)"), ev))
                 if ev == 0 and any(g(r, c) != 0 for c in ("Current (A)", "Power (W)", "Loss (W)")):
                     res.v(("C04.dead-rail-carries",), "phase %r rail of %s: %r" % (ph, own, r))
@@ -73,6 +81,8 @@ def gen_cases(tier):
                             yield dict(fam="phase", f=f, pal=pal, pol=1, srs=0.37, who=c["n"], pc=pc)
                         # listed for an undefined phase only (= dead in every phase), configured before / after the system phases
                         yield dict(fam="phase", f=f, pal=pal, pol=1, srs=0.37, who=c["n"], pc=["zz"], pc_first=(n % 2 == 0))
+                        if n <= 2:
+                            yield dict(fam="phase", f=f, pal=pal, pol=1, srs=0.37, who=c["n"], pc=["a"], nophase=True)
                         if tier != "quick":
                             yield dict(fam="phase", f=f, pal=pal, pol=-1, srs=0.0, who=c["n"], pc=["a", "c"], ph3=True)
         for n in ((4, 5) if tier == "quick" else (4, 5, 6)):
